@@ -159,8 +159,8 @@ type taintCtx struct {
 }
 
 type taintSummary struct {
-	issues     []taintIssue
-	toResults  map[int]bool // param flows into result i
+	issues    []taintIssue
+	toResults map[int]bool // param flows into result i
 }
 
 func newTaint(p *Prog) *taintCtx {
